@@ -56,6 +56,7 @@ pub fn run(ctx: &Ctx) {
     let hist_ops: Vec<(&str, Value)> = vec![
         ("d", json!(null)), ("W", json!(null)), ("r", json!(null)), ("i", json!(null)), ("g", json!(null)), ("x", json!(null)), ("na", json!(null)), ("ne", json!(null)),
         ("nane", json!(null)), ("e", json!(false)), ("e", json!(true)), ("minrep", json!(2)), ("minlen", json!(2)), ("build", json!(null)),
+        ("minrep_bad", json!(0)), ("minlen_bad", json!(-1)),
     ];
     let hist_input: Vec<String> = vec!["a\u{1f4a9}\u{1f4a9}\u{e9}1".to_string(), "A\u{10ffff} 1".to_string()];
     let depth = if thorough { 4 } else { 3 };
@@ -167,6 +168,8 @@ pub fn run(ctx: &Ctx) {
                     ("minrep", v) => { b.with_minimum_repetitions(v.as_u64().unwrap() as u32); }
                     ("minlen", v) => { b.with_minimum_substring_length(v.as_u64().unwrap() as u32); }
                     ("build", _) => { b.build(); }
+                    // a rejected call (ValueError in Python, panic in Rust) must leave the builder as it was
+                    ("minrep_bad", _) | ("minlen_bad", _) => {}
                     _ => unreachable!(),
                 }
             }
@@ -182,7 +185,7 @@ pub fn run(ctx: &Ctx) {
             run.sample(json!({"history": names, "python": out}));
         }
     }
-    run.space(json!({"engine": "call histories on the real extension: every sequence of setter calls (14-symbol alphabet incl. escape(False/True), thresholds, build) up to the depth bound; expected = real Rust builder driven by the same sequence", "depth": depth, "histories": histories.len()}));
+    run.space(json!({"engine": "call histories on the real extension: every sequence of setter calls (16-symbol alphabet incl. escape(False/True), thresholds, rejected threshold calls, build) up to the depth bound; expected = real Rust builder driven by the same sequence", "depth": depth, "histories": histories.len()}));
     for (id, (t, c)) in cases.iter().enumerate() {
         run.eval();
         if t.iter().any(|s| !s.is_ascii()) {
